@@ -23,6 +23,7 @@ func tabulateFunction(c *cli.Context) error {
 		sortCols  = c.String("sort-cols")
 		formatExp = c.String(helpers.FormatFlag.Name)
 	)
+	helpers.NonNegativeOrFail(c, "num", "cols")
 
 	counter := aggregation.NewTable(delim)
 	vt := helpers.BuildVTermFromArguments(c)
